@@ -352,6 +352,17 @@ def _run_instant(res, item):
             dv_err = float(np.linalg.norm(got[3:] - ref[3:]))
             dr_err = float(np.linalg.norm(got[:3] - ref[:3]))
             ok = dv_err < 1e-6 * max(1, len(imps)) + 1e-6 and dr_err < 1e-3 * max(1, len(imps))
+            at_end = [(e["offset"], "ntw" if e["kind"] == "impulse_ntw" else "eci", e["vec"]) for e in evs
+                      if e["kind"].startswith("impulse") and e["agent"] == tid and e["offset"] == t_end]
+            if not ok and at_end:
+                # an impulse exactly at the final epoch: the state recorded AT that instant may be pre- or post-impulse
+                # (its scenario time, recovered from a Julian date, lands a few microseconds before or after t_end)
+                ref2 = _reference_truth(np.concatenate(x0[tid]), imps + at_end, t_end + 1e-9)
+                dv2 = float(np.linalg.norm(got[3:] - ref2[3:]))
+                dr2 = float(np.linalg.norm(got[:3] - ref2[:3]))
+                if dv2 < 1e-6 * max(1, len(imps)) + 1e-6 and dr2 < 1e-3 * max(1, len(imps)):
+                    ok, dv_err, dr_err = True, dv2, dr2
+                    res.either_way += 1
             res.case(
                 "instant/impulse_effect",
                 {**base_case, "target": tid, "n_impulses": len(imps), "steps": steps_run},
